@@ -148,14 +148,18 @@ def finite(rows):
 
 
 # --------------------------------------------------------------------------------------------- running
+MAX_CRASHES = 4
+
+
 def run_impl(ctx, exe, cases, timeout=300, env=None):
     """cases: list of command strings WITHOUT the id (first word = command); the id is inserted.
-    Returns list aligned with cases: token list after 'R <id>' or {'crash': text}."""
+    Returns list aligned with cases: token list after 'R <id>', {'crash': text}, or {'skipped': True} for
+    the commands that were not run any more because the driver had already aborted / hung MAX_CRASHES
+    times in this batch (a library that hangs on everything must not cost 20 s per command)."""
     results = [None] * len(cases)
     start = 0
-    guard = 0
-    while start < len(cases) and guard < 60:
-        guard += 1
+    crashes = 0
+    while start < len(cases) and crashes < MAX_CRASHES:
         text = []
         for k, c in enumerate(cases[start:]):
             head, _, rest = c.partition(" ")
@@ -175,6 +179,7 @@ def run_impl(ctx, exe, cases, timeout=300, env=None):
                 results[cur] = {"crash": "hang: the in-process watchdog fired"}
         if r.rc == 0 and not r.timed_out:
             break
+        crashes += 1
         if cur is None:
             cur = start
         if cur >= len(cases):
@@ -185,12 +190,16 @@ def run_impl(ctx, exe, cases, timeout=300, env=None):
         start = cur + 1
     for i, x in enumerate(results):
         if x is None:
-            results[i] = {"crash": "no output for this case"}
+            results[i] = {"skipped": True} if crashes >= MAX_CRASHES else {"crash": "no output for this case"}
     return results
 
 
+def skipped(x):
+    return isinstance(x, dict) and x.get("skipped")
+
+
 def crashed(x):
-    return isinstance(x, dict)
+    return isinstance(x, dict) and "crash" in x
 
 
 def run_model(ctx, mexe, lines, timeout=600):
@@ -343,6 +352,9 @@ def eval_exact(ctx, exe, mexe, cases, stats):
         bad = [r for r in res if crashed(r)]
         if bad:
             ctx.violation(case_to_json(c), "the stage driver aborts on this input: " + str(bad[0]["crash"])[:500])
+            continue
+        if any(skipped(r) for r in res):
+            stats["not_run_after_repeated_aborts"] = stats.get("not_run_after_repeated_aborts", 0) + 1
             continue
         tabs = []
         ok = True
@@ -549,6 +561,9 @@ def eval_assembly(ctx, exe, mexe, cases, stats):
         bad = [r for r in res if crashed(r)] + ([r for r in hl if crashed(r)] if c["k"] >= 3 else [])
         if bad:
             ctx.violation(jc, "an assembly routine aborts on well-formed neighbour lists: " + str(bad[0]["crash"])[:400])
+            continue
+        if any(skipped(r) for r in res + hl):
+            stats["not_run_after_repeated_aborts"] = stats.get("not_run_after_repeated_aborts", 0) + 1
             continue
         tabs = [parse_impl_tables(r[1:]) if r and r[0] == "OK" else None for r in res]
         if any(t is None for t in tabs):
@@ -780,11 +795,13 @@ def meta_tol(case):
 
 def emb_cmd(params, N, D, X, extra=""):
     kv = " ".join("%s=%s" % (k, v) for k, v in sorted(params.items()))
-    return "EMB %s N=%d D=%d %s\nX %s" % (kv, N, D, extra, " ".join(float(v).hex() for row in X for v in row))
+    return "EMB %s N=%d D=%d wd=10 %s\nX %s" % (kv, N, D, extra, " ".join(float(v).hex() for row in X for v in row))
 
 
 def parse_emb(res):
     """-> ('ok', rows of floats) | ('exc', name) | ('crash', text) | ('bad', text)"""
+    if skipped(res):
+        return ("bad", "not run")
     if crashed(res):
         return ("crash", res["crash"])
     if not res:
@@ -839,6 +856,9 @@ def meta_cmds(c):
 
 def meta_verdict(c, res3, stats):
     """-> None (holds / not comparable) or the text of a violation"""
+    if any(skipped(r) for r in res3[:2]):
+        stats["not_run_after_repeated_aborts"] = stats.get("not_run_after_repeated_aborts", 0) + 1
+        return None
     a, b, p = (parse_emb(r) for r in res3)
     for tag, r in (("original", a), ("transformed", b)):
         if r[0] == "crash":
@@ -966,10 +986,12 @@ def gen_nbr_case(rng):
 
 def nbr_cmd(params, N, D, X):
     kv = " ".join("%s=%s" % (k, v) for k, v in sorted(params.items()))
-    return "NBR %s N=%d D=%d\nX %s" % (kv, N, D, " ".join(float(v).hex() for row in X for v in row))
+    return "NBR %s N=%d D=%d wd=10\nX %s" % (kv, N, D, " ".join(float(v).hex() for row in X for v in row))
 
 
 def parse_nbr(res, N):
+    if skipped(res):
+        return ("skip", "")
     if crashed(res):
         return ("crash", res["crash"])
     if res and res[0] == "EXC":
@@ -1001,6 +1023,8 @@ def eval_nbr(ctx, exe, cases, stats, hist):
     for ci, c in enumerate(cases):
         N, ql = c["N"], c["ql"]
         a, b = parse_nbr(res[2 * ci], N), parse_nbr(res[2 * ci + 1], N)
+        if a[0] == "skip" or b[0] == "skip":
+            continue
         evals += 1
         hist["nbr/" + c["params"]["nm"]] = hist.get("nbr/" + c["params"]["nm"], 0) + 1
         if a[0] in ("crash", "bad") or b[0] in ("crash", "bad"):
@@ -1080,6 +1104,8 @@ def eval_history(ctx, exe, cases, stats, hist):
             alone = run_impl(ctx, exe, [cmds[i]], timeout=300, env=env)[0]
             evals += 1
             hist["history/" + k["params"]["m"]] = hist.get("history/" + k["params"]["m"], 0) + 1
+            if skipped(alone) or skipped(together[i]):
+                continue
             if crashed(alone) or crashed(together[i]):
                 ctx.violation({"stream": "history", "calls": c["calls"][:i + 1]},
                               "embed aborts in a history: " + str((alone if crashed(alone) else together[i])["crash"])[:300])
